@@ -161,6 +161,8 @@ unsafe fn do_accept(fd: c_int, addr: *mut sockaddr, len: *mut socklen_t, flags: 
             with_world(|w| {
                 w.stats.accepts += 1;
                 w.sozu_fds.insert(nfd, 'a');
+                w.accepted_peer.insert(nfd, peer);
+                if w.accepted_peer.len() > w.max_open_accepted { w.max_open_accepted = w.accepted_peer.len(); }
                 w.tr(0xAC, peer.port() as u64);
                 w.on_sozu_socket(nfd);
             });
